@@ -436,4 +436,55 @@ theorem count_full {ps : List Param} {npos : Nat} {named : List String}
   simp [names] at h1 h2
   omega
 
+
+theorem named_wf_iff (ps : List Param) (npos : Nat) (named : List String)
+    (passed : List (String × Src)) :
+    bindNamed ps (bindPos ps npos 0) named 0 = .ok passed ↔
+      (NamedWF ps npos named ∧ passed = bindPos ps npos 0 ++ namedEnv named 0) := by
+  rw [bindNamed_ok_iff]
+  have key : ∀ n, has (bindPos ps npos 0) n = false ↔ n ∉ (names ps).take npos := by
+    intro n
+    rw [← bindPos_names ps npos 0, ← has_iff]
+    cases has (bindPos ps npos 0) n <;> simp
+  constructor
+  · rintro ⟨a, b, c, d⟩
+    exact ⟨⟨c, a, fun n hn => (key n).mp (b n hn)⟩, d⟩
+  · rintro ⟨⟨c, a, b⟩, d⟩
+    exact ⟨a, fun n hn => (key n).mpr (b n hn), c, d⟩
+
+
+/-- a call is well-formed by the language rule: not too many positional arguments, every named
+    argument names a parameter not already bound, no name twice, every parameter gets a value -/
+def SpecOk (ps : List Param) (npos : Nat) (named : List String) : Prop :=
+  npos ≤ ps.length ∧ NamedWF ps npos named ∧
+    ∀ i p, ps[i]? = some p → (specSrc npos named i p).isSome = true
+
+
+theorem map_fst_zip_sublist {α β : Type} : ∀ (l1 : List α) (l2 : List β),
+    ((l1.zip l2).map (·.1)).Sublist l1
+  | [], _ => by simp
+  | _ :: _, [] => by simp
+  | a :: as, _ :: bs => by
+    simp only [List.zip_cons_cons, List.map_cons]
+    exact (map_fst_zip_sublist as bs).cons₂ a
+
+theorem indexOf?_spec {V : Type} (l : List (String × V)) (hnd : (l.map (·.1)).Nodup) (n : String) (v : V)
+    (hm : (n, v) ∈ l) : ∃ j, indexOf? (l.map (·.1)) n = some j ∧ l[j]? = some (n, v) := by
+  induction l with
+  | nil => cases hm
+  | cons x r ih =>
+    have hnd' : x.1 ∉ r.map (·.1) ∧ (r.map (·.1)).Nodup :=
+      List.nodup_cons.mp (by rw [List.map_cons] at hnd; exact hnd)
+    rcases List.mem_cons.mp hm with e | hm'
+    · subst e
+      exact ⟨0, by simp [indexOf?], rfl⟩
+    · have hne : x.1 ≠ n := by
+        intro e
+        exact hnd'.1 (e ▸ List.mem_map_of_mem (f := (·.1)) hm')
+      obtain ⟨j, h1, h2⟩ := ih hnd'.2 hm'
+      refine ⟨j + 1, ?_, by simpa using h2⟩
+      have : (x.1 == n) = false := by simpa using hne
+      simp [indexOf?, this, h1]
+
+
 end JrsVerif.Bind
